@@ -444,6 +444,13 @@ func seqProfile(prop string, rng *simrt.Rng, tier string) (*Profile, map[string]
 		k["fsck_every"] = 5
 		k["deleteall"] = 1
 		k["allocfail"] = int64(rng.Intn(2))
+		if rng.Chance(0.1) {
+			// "a crash in the middle of freeing loses no space permanently": every crash
+			// point of a tenth of the histories, with the continuation that touches what
+			// the crash left half-freed
+			k["crash"] = 1
+			k["allocfail"] = 0
+		}
 		disk = uint64(4000 + rng.Intn(9000))
 	case "C08":
 		p.W = weights(map[string]int{"create": 16, "remove": 16, "mkdir": 8, "rmdir": 8, "rename": 10, "write": 8})
@@ -530,7 +537,43 @@ func (seqEngine) Gen(prop string, seed uint64, tier string) *Spec {
 	if rng.Chance(0.10) {
 		drainAt = rng.Intn(n)
 	}
+	fillAt := -1
+	if knobs["nospace"] == 1 && knobs["crash"] == 0 && rng.Chance(0.3) {
+		fillAt = rng.Intn(n)
+	}
 	for i := 0; i < n; i++ {
+		if i == fillAt {
+			// fill the disk down to 0-3 free blocks, then requests that need one block
+			// more than there is (so that they fail after allocating something) mixed
+			// with requests that fit exactly
+			g.emit(&Op{K: "create", H: 0, N: fmt.Sprintf("zzfill%d", i), How: 1})
+			fid := g.ops[len(g.ops)-1].ID
+			g.emit(&Op{K: "fillto", H: fid, Len: uint64(rng.Intn(4))})
+			for j := 0; j < 3+rng.Intn(4); j++ {
+				nm := fmt.Sprintf("zzp%d_%d", i, j)
+				switch rng.Intn(6) {
+				case 0: // index block + data block
+					g.emit(&Op{K: "create", H: 0, N: nm, How: 1})
+					g.nextPat++
+					g.emit(&Op{K: "write", H: g.ops[len(g.ops)-1].ID, Off: 8 * 4096, Len: 100, Cnt: 100, Pat: g.nextPat, How: 2})
+				case 1: // one block
+					g.emit(&Op{K: "create", H: 0, N: nm, How: 1})
+					g.nextPat++
+					g.emit(&Op{K: "write", H: g.ops[len(g.ops)-1].ID, Off: 0, Len: 100, Cnt: 100, Pat: g.nextPat, How: 2})
+				case 2:
+					g.emit(&Op{K: "mkdir", H: 0, N: nm})
+				case 3:
+					g.emit(&Op{K: "symlink", H: 0, N: nm, Len: 5000 + uint64(rng.Intn(4000)), Pat: 3})
+				case 4: // two blocks
+					g.emit(&Op{K: "create", H: 0, N: nm, How: 1})
+					g.nextPat++
+					g.emit(&Op{K: "write", H: g.ops[len(g.ops)-1].ID, Off: 0, Len: 8192, Cnt: 8192, Pat: g.nextPat, How: 2})
+				default:
+					g.emit(&Op{K: "remove", H: 0, N: fmt.Sprintf("zzp%d_%d", i, rng.Intn(j+1))})
+				}
+			}
+			continue
+		}
 		if i == drainAt {
 			// a directory that grows over several blocks of entries and is then drained
 			// down to a few survivors (biased to the slots around block boundaries);
@@ -769,6 +812,33 @@ func (x *seqRun) rpcCheck(in *In, out *Out) {
 	}
 }
 
+// fillTo appends single blocks to the file of op.H until the block allocator
+// has at most op.Len free blocks (or a write is refused): the requests that
+// follow meet a disk with exactly 0-3 free blocks.
+func (x *seqRun) fillTo(op *Op) {
+	h, ok := x.tbl[op.H]
+	if !ok {
+		return
+	}
+	o := x.m.Objs[x.m.ByH[h]]
+	if o == nil || !o.Live || o.Kind != kREG {
+		return
+	}
+	blk := patData(0xF111, 0, 4096)
+	for n := 0; n < 6000; n++ {
+		if x.rig.Srv.VerifFsState().Balloc.NumFree() <= op.Len {
+			break
+		}
+		o = x.m.Objs[x.m.ByH[h]]
+		off := (o.Size + 4095) / 4096 * 4096
+		out := x.checked(&In{K: "write", Obj: h, Off: off, Count: 4096, Data: blk, How: 2})
+		if out.Status != 0 || out.Count == 0 {
+			break
+		}
+	}
+	x.res.count("fill_to_few_free_blocks", 1)
+}
+
 func (x *seqRun) checked(in *In) *Out {
 	out := x.rig.Call(in)
 	x.rpcCheck(in, out)
@@ -937,6 +1007,12 @@ func (x *seqRun) main() {
 			x.stable = append(x.stable, false)
 			continue
 		}
+		if op.K == "fillto" {
+			x.fillTo(op)
+			x.states = append(x.states, x.m.Clone())
+			x.stable = append(x.stable, false)
+			continue
+		}
 		if x.special(i, op) {
 			x.states = append(x.states, x.states[len(x.states)-1])
 			x.stable = append(x.stable, false)
@@ -976,6 +1052,35 @@ func (x *seqRun) main() {
 			}
 			if out.Status == stNOSPC {
 				x.res.count("ops_nospc", 1)
+				// "no space" although the running server's allocators have more free
+				// blocks (and inodes) than the request could possibly need: space that is
+				// free must be usable (no background freeing is pending at this point)
+				if x.rig.Srv.VerifShrinkerThreads() == 0 && spec.knob("allocfail", 0) == 0 && !x.m.otherwiseInvalid(in) {
+					st := x.rig.Srv.VerifFsState()
+					// upper bound of the blocks the request can need: the pages it touches,
+					// the index blocks above them (layout constants of the inode package),
+					// and for name-creating requests the growth of the parent directory
+					need := uint64(4)
+					switch in.K {
+					case "write":
+						first, last := in.Off/4096, (in.Off+in.Count+4095)/4096
+						need = last - first
+						if last > inode.NDIRECT {
+							need++ // the indirect block, or the double-indirect root
+						}
+						if last > inode.NDIRECT+inode.NBLKBLK {
+							need += (last-first)/inode.NBLKBLK + 2 // second-level index blocks
+						}
+					case "symlink":
+						need = uint64(len(in.Data)+4095)/4096 + 4
+					case "setattr":
+						need = 3
+					}
+					if fb, fi := st.Balloc.NumFree(), st.Ialloc.NumFree(); fb >= need && fi >= 1 {
+						x.fail("space", "nospc-with-free-space:"+in.K, fmt.Sprintf("op %d %s failed with NFS3ERR_NOSPC although the allocators have %d free blocks and %d free inodes (the request needs at most %d blocks)",
+							i, describeIn(in), fb, fi, need))
+					}
+				}
 			}
 			if audit != nil {
 				x.afterFailAudit(i, in, out, audit)
